@@ -293,13 +293,27 @@ impl Space for Scale {
     }
 }
 
-pub fn etok(with_var: bool, max_len: usize, render: Render) -> ETok {
-    let alpha = derive(with_var).expect("alphabet self-check (run by the driver before any worker)");
-    ETok {
-        name: format!("E-TOK/{}/{:?}/len<={}", if with_var { "tok+var" } else { "tok" }, render, max_len),
-        alpha,
-        max_len,
-        render,
+/// The token-level space, or the probe on which the lexer panicked while the alphabet was
+/// being derived from it (then that probe is the witness the checks run on).
+pub fn etok(with_var: bool, max_len: usize, render: Render) -> Result<ETok, String> {
+    match derive(with_var) {
+        Ok(alpha) => Ok(ETok {
+            name: format!("E-TOK/{}/{:?}/len<={}", if with_var { "tok+var" } else { "tok" }, render, max_len),
+            alpha,
+            max_len,
+            render,
+        }),
+        Err(e) => match crate::space::etok::subject_panic_probe(&e) {
+            Some(probe) => Err(probe.to_string()),
+            None => panic!("alphabet self-check (run by the driver before any worker): {}", e),
+        },
+    }
+}
+
+pub fn tok_space(with_var: bool, max_len: usize, render: Render, oracle: fn(&str, &mut Ctx)) -> Box<dyn Space> {
+    match etok(with_var, max_len, render) {
+        Ok(e) => TextSpace::toks(e, oracle),
+        Err(probe) => TextSpace::list("E-TOK/derivation-witness (the lexer panicked on a probe of the alphabet derivation)", vec![probe], 1, oracle),
     }
 }
 
@@ -311,15 +325,15 @@ pub fn text_spaces(tier: Tier, oracle: fn(&str, &mut Ctx)) -> Vec<Box<dyn Space>
     }
     match tier {
         Tier::Quick => {
-            v.push(TextSpace::toks(etok(true, 3, Render::Spaced), oracle));
-            v.push(TextSpace::toks(etok(false, 3, Render::Tight), oracle));
-            v.push(TextSpace::toks(etok(false, 3, Render::Commented), oracle));
+            v.push(tok_space(true, 3, Render::Spaced, oracle));
+            v.push(tok_space(false, 3, Render::Tight, oracle));
+            v.push(tok_space(false, 3, Render::Commented, oracle));
         }
         Tier::Thorough => {
-            v.push(TextSpace::toks(etok(true, 3, Render::Spaced), oracle));
-            v.push(TextSpace::toks(etok(true, 3, Render::Tight), oracle));
-            v.push(TextSpace::toks(etok(true, 3, Render::Commented), oracle));
-            v.push(TextSpace::toks(etok(false, 4, Render::Spaced), oracle));
+            v.push(tok_space(true, 3, Render::Spaced, oracle));
+            v.push(tok_space(true, 3, Render::Tight, oracle));
+            v.push(tok_space(true, 3, Render::Commented, oracle));
+            v.push(tok_space(false, 4, Render::Spaced, oracle));
         }
     }
     v
@@ -341,11 +355,12 @@ pub fn spaces(tier: Tier, _seed: u64) -> Vec<Box<dyn Space>> {
         Tier::Thorough => {
             v.push(crate::props::gprog::fault_programs(1, fault_oracle));
             v.push(Box::new(Scale { max_nest: 256, max_flat: 16384 }));
-            v.push(TextSpace::toks(etok(false, 4, Render::Tight), oracle));
+            v.push(tok_space(false, 4, Render::Tight, oracle));
             if std::env::var("VERIF_C01_LEN5").map(|v| v != "0").unwrap_or(true) {
-                let mut e = etok(false, 5, Render::Spaced);
-                e.name = format!("{}/parser-level", e.name);
-                v.push(TextSpace::toks(e, oracle_parser_level));
+                if let Ok(mut e) = etok(false, 5, Render::Spaced) {
+                    e.name = format!("{}/parser-level", e.name);
+                    v.push(TextSpace::toks(e, oracle_parser_level));
+                }
             }
         }
     }
@@ -353,5 +368,8 @@ pub fn spaces(tier: Tier, _seed: u64) -> Vec<Box<dyn Space>> {
 }
 
 pub fn self_check() -> Result<(), String> {
-    derive(true).map(|_| ())
+    match derive(true) {
+        Err(e) if crate::space::etok::subject_panic_probe(&e).is_none() => Err(e),
+        _ => Ok(()), // a panic of the subject is reported by the spaces, on the probe
+    }
 }
